@@ -184,7 +184,7 @@ pub unsafe fn simd_prefix_search_avx2(
         if lt_mask == 0xFFFFFFFF {
             left = batch_start + AVX2_BATCH_SIZE;
             continue;
-        } else if lt_mask == 0 {
+        } else if lt_mask == 0 && eq_mask == 0 {
             right = batch_start;
             continue;
         }
@@ -194,9 +194,10 @@ pub unsafe fn simd_prefix_search_avx2(
         if first_ge_idx > 0 {
             left = batch_start + first_ge_idx - 1;
         }
-        right = batch_start + first_ge_idx.min(7) + 1;
 
-        if eq_mask != 0 {
+        if eq_mask == 0 {
+            right = batch_start + first_ge_idx.min(7) + 1;
+        } else {
             let first_eq_idx = (eq_mask.trailing_zeros() / 4) as usize;
             let last_eq_idx = if eq_mask.leading_zeros() == 0 {
                 7
@@ -204,7 +205,12 @@ pub unsafe fn simd_prefix_search_avx2(
                 (31 - eq_mask.leading_zeros()) as usize / 4
             };
             left = left.min(batch_start + first_eq_idx);
-            right = right.max(batch_start + last_eq_idx + 1);
+            // Slots sharing the target prefix must stay inside [left, right). A run of
+            // equal prefixes that reaches the last lane may continue past the batch, so
+            // `right` is only lowered when a greater prefix is visible in this batch.
+            if last_eq_idx + 1 < AVX2_BATCH_SIZE {
+                right = batch_start + last_eq_idx + 1;
+            }
         }
 
         break;
